@@ -521,7 +521,10 @@ class FileOffsetTable:
         return self.exists() and os.path.getmtime(self.offset_table_path) >= os.path.getmtime(self.data_file_path)
 
     def __enter__(self) -> Self:
-        self.offset_file = open(self.offset_table_path, self.mode)
+        # a new table is written under a temporary name and only moved to its final name once it is complete (see #__exit__).
+        # Otherwise an interrupted build leaves a truncated table behind that is newer than the data file and thus considered valid.
+        path = f"{self.offset_table_path}.tmp" if self.mode.startswith("w") else self.offset_table_path
+        self.offset_file = open(path, self.mode)
         return self
 
     def add_offset(self, line_number: int, offset: int) -> None:
@@ -565,6 +568,11 @@ class FileOffsetTable:
         assert self.offset_file is not None, "File offset table must be opened in a context manager block."
         self.offset_file.close()
         self.offset_file = None
+        if self.mode.startswith("w"):
+            if exc_type is None:
+                os.replace(f"{self.offset_table_path}.tmp", self.offset_table_path)
+            else:
+                os.remove(f"{self.offset_table_path}.tmp")
         return False
 
     @classmethod
